@@ -32,6 +32,9 @@ def generate(rng, n, tier):
             if rng.random() < 0.4:
                 i = rng.randrange(1, k)
                 pts[i] = list(pts[i - 1])      # repeated position
+        if rng.random() < 0.2:     # very short legs (a near-stationary receiver): the same shapes scaled to tens of micrometres, exact in binary
+            sc = rng.choice([2.0 ** -15, 2.0 ** -17, 2.0 ** -20])
+            pts = [[x * sc, y * sc] for x, y in pts]
         zs = [float(rng.randint(0, 30)) for _ in range(k)]   # heights must not matter (planimetric)
         ts = sorted(rng.choice(range(100, 100 + 2 * k)) for _ in range(k))   # repeated timestamps allowed
         ms = [rng.choice([0, 0, 500]) for _ in range(k)]
